@@ -42,6 +42,17 @@ from saml2_tophat.s_utils import error_status_factory
 from saml2_tophat.response import AuthnResponse
 
 BIND = {"post": BINDING_HTTP_POST, "redirect": BINDING_HTTP_REDIRECT, "soap": BINDING_SOAP}
+# request kind -> (endpoint key prefix, root element, parse method of the receiving Server)
+REQ_KIND = {
+    "authn_request": ("sso_", "AuthnRequest", "parse_authn_request"),
+    "logout_request": ("slo_", "LogoutRequest", "parse_logout_request"),
+    "attribute_query": ("aa_", "AttributeQuery", "parse_attribute_query"),
+    "manage_name_id_request": ("mni_", "ManageNameIDRequest", "parse_manage_name_id_request"),
+    "name_id_mapping_request": ("nim_", "NameIDMappingRequest", "parse_name_id_mapping_request"),
+    "authn_query": ("aqs_", "AuthnQuery", "parse_authn_query"),
+    "authz_decision_query": ("azs_", "AuthzDecisionQuery", "parse_authz_decision_query"),
+}
+PREFIX_KIND = {v[0]: (k, v[1], v[2]) for k, v in REQ_KIND.items()}
 B64 = "ABCDEFGHIJKLMNOPQRSTUVWXYZabcdefghijklmnopqrstuvwxyz0123456789+/"
 RESP_NODE = "urn:oasis:names:tc:SAML:2.0:protocol:Response"
 ASSERT_NODE = "urn:oasis:names:tc:SAML:2.0:assertion:Assertion"
@@ -403,7 +414,9 @@ class FedSim(object):
         kind = ev["kind"]
         b = ev.get("rb", "soap")
         ep = fed.idp_endpoints(idp_name)
-        dest = ep["aa_soap"] if kind == "attribute_query" else ep["slo_" + b]
+        if kind != "logout_request":
+            b = "soap"
+        dest = ep[REQ_KIND[kind][0] + b]
         name_id = saml.NameID(text=ev.get("subject", "subj-%d" % ev["f"]),
                               format=saml.NAMEID_FORMAT_PERSISTENT,
                               sp_name_qualifier=sp.entity_id)
@@ -411,14 +424,29 @@ class FedSim(object):
         rec = {"sp": sp.name, "idp": idp_name, "f": ev["f"], "rb": b, "kind": kind}
         try:
             with self.world.on(sp.name):
+                alg = {"sign_alg": ev.get("sigalg"), "digest_alg": ev.get("digalg")}
                 if kind == "logout_request":
                     reqid, req = sp.client.create_logout_request(dest, fed.idp_entity(idp_name), name_id=name_id,
-                                                                 sign=sign, sign_alg=ev.get("sigalg"),
-                                                                 digest_alg=ev.get("digalg"))
+                                                                 sign=sign, **alg)
+                elif kind == "attribute_query":
+                    reqid, req = sp.client.create_attribute_query(dest, name_id=name_id, sign=sign, **alg)
+                elif kind == "manage_name_id_request":
+                    reqid, req = sp.client.create_manage_name_id_request(dest, name_id=name_id, sign=sign,
+                                                                         new_id=samlp.NewID(text="new-%d" % ev["f"]), **alg)
+                elif kind == "name_id_mapping_request":
+                    reqid, req = sp.client.create_name_id_mapping_request(
+                        samlp.NameIDPolicy(format=saml.NAMEID_FORMAT_PERSISTENT, sp_name_qualifier=sp.entity_id),
+                        name_id=name_id, destination=dest, sign=sign, **alg)
+                elif kind == "authn_query":
+                    reqid, req = sp.client.create_authn_query(saml.Subject(name_id=name_id), destination=dest,
+                                                              sign=sign, **alg)
+                elif kind == "authz_decision_query":
+                    reqid, req = sp.client.create_authz_decision_query(
+                        dest, [saml.Action(text="read", namespace="urn:oasis:names:tc:SAML:1.0:action:rwedc")],
+                        resource="https://res.sim.example/doc/%d" % ev["f"], subject=saml.Subject(name_id=name_id),
+                        sign=sign, **alg)
                 else:
-                    reqid, req = sp.client.create_attribute_query(dest, name_id=name_id, sign=sign,
-                                                                  sign_alg=ev.get("sigalg"),
-                                                                  digest_alg=ev.get("digalg"))
+                    raise ValueError(kind)
                 info = sp.client.apply_binding(BIND[b], "%s" % req, dest, fl.relay)
         except Exception as e:
             rec["error"] = type(e).__name__
@@ -499,7 +527,7 @@ class FedSim(object):
         if idp is None:
             return None
         kindmsg = msg.get("kind", "authn_request")
-        prefix = {"authn_request": "sso_", "logout_request": "slo_", "attribute_query": "aa_"}[kindmsg]
+        prefix = REQ_KIND[kindmsg][0]
         via = ev.get("via") or (prefix + msg["binding"])
         via_binding = "redirect" if via.endswith("redirect") else ("soap" if via.endswith("soap") else "post")
         value = msg["fields"].get("SAMLRequest")
@@ -526,12 +554,11 @@ class FedSim(object):
                     if not via.startswith("slo_"):
                         return None
                     req = idp.client.parse_logout_request(value, BIND[via_binding])
-                elif via.startswith("sso_"):
-                    req = idp.server.parse_authn_request(value, BIND[via_binding])
-                elif via.startswith("slo_"):
-                    req = idp.server.parse_logout_request(value, BIND[via_binding])
                 else:
-                    req = idp.server.parse_attribute_query(value, BIND[via_binding])
+                    pk = PREFIX_KIND.get(via.split("_")[0] + "_")
+                    if pk is None or via not in idp.endpoints:
+                        return None
+                    req = getattr(idp.server, pk[2])(value, BIND[via_binding])
             rec["handed"] = req is not None
             rec["exc"] = None
             if req is not None:
